@@ -316,6 +316,14 @@ func runC07(res *hx.Result, rng *hx.Rng, tier string, outdir string) {
 			}
 		}
 	}
+	// directed: structures that contain themselves, directly and through every container, alone and in
+	// a ring of two; each used by a method, a signal and a property (signatures are computed per action)
+	for _, member := range []string{"Node", "Vec<Node>", "Map<str,Node>", "Tuple<int32,Node>", "Vec<Vec<Node>>", "Map<str,Vec<Node>>", "Other", "Vec<Other>", "Map<int32,Other>", "Tuple<Other,Other>"} {
+		for _, use := range []string{"fn f(a: Node) -> int32", "fn g() -> Vec<Node>", "sig s(a: Node)", "prop p(a: Map<str,Node>)"} {
+			text := "package p\nstruct Node\n\tid: int32\n\tnext: " + member + "\nend\nstruct Other\n\tback: Vec<Node>\nend\ninterface I\n\t" + use + "\nend\n"
+			add(c07job{entry: k7ParseIDL, sig: "v", t: wg.Scalar("v"), input: []byte(text), desc: "directed: recursive structure through " + member})
+		}
+	}
 	// the witnesses of the refutation theorems, always
 	add(c07job{entry: k8SigRead, sig: "[v]", t: wg.List(wg.Scalar("v")), input: []byte{0xff, 0xff, 0xff, 0xff}, desc: "witness sig_spin_zero_width", hostCount: 0xffffffff})
 	add(c07job{entry: k8MetaObject, sig: wg.MetaObjectTy().Sig(), t: wg.MetaObjectTy(), input: []byte{0xff, 0xff, 0xff, 0xff}, desc: "witness gen_alloc_from_wire_count", hostCount: 0xffffffff})
@@ -488,14 +496,58 @@ func mutateText(rng *hx.Rng, s []byte, sig bool) ([]byte, string) {
 	}
 }
 
+// wrapIDL puts a type name behind zero or more container constructors.
+func wrapIDL(rng *hx.Rng, name string) string {
+	for d := rng.Pick(0, 0, 1, 1, 2); d > 0; d-- {
+		switch rng.Intn(3) {
+		case 0:
+			name = "Vec<" + name + ">"
+		case 1:
+			name = "Map<str," + name + ">"
+		default:
+			name = "Tuple<int32," + name + ">"
+		}
+	}
+	return name
+}
+
+// idlStructs declares k structures whose members refer to each other freely (to themselves, to
+// earlier and to later ones, directly or through Vec/Map/Tuple): reference cycles of every shape.
+func idlStructs(rng *hx.Rng, k int) (string, []string) {
+	var b strings.Builder
+	names := make([]string, k)
+	for i := range names {
+		names[i] = fmt.Sprintf("S%d", i)
+	}
+	for i, n := range names {
+		fmt.Fprintf(&b, "struct %s\n\tid: int32\n", n)
+		for f := 0; f < 1+rng.Intn(3); f++ {
+			ty := []string{"int32", "str", "any", "float32"}[rng.Intn(4)]
+			if rng.Chance(0.7) {
+				ty = wrapIDL(rng, names[rng.Pick(i, rng.Intn(k), (i+1)%k)])
+			}
+			fmt.Fprintf(&b, "\tm%d: %s\n", f, ty)
+		}
+		b.WriteString("end\n")
+	}
+	return b.String(), names
+}
+
 func genIDLText(rng *hx.Rng) string {
 	var b strings.Builder
 	b.WriteString("package test\n")
 	if rng.Bool() {
 		b.WriteString("struct Point\n\tx: int32\n\ty: float32\n\tname: str\nend\n")
 	}
-	b.WriteString("interface Svc\n")
 	types := []string{"int32", "str", "bool", "float64", "Vec<int32>", "Map<str,int32>", "any", "Point", "Vec<Point>", "uint64", "obj", "Tuple<int32,str>"}
+	if rng.Chance(0.4) {
+		decls, names := idlStructs(rng, 1+rng.Intn(4))
+		b.WriteString(decls)
+		for _, n := range names {
+			types = append(types, n, wrapIDL(rng, n))
+		}
+	}
+	b.WriteString("interface Svc\n")
 	for i := 0; i < 1+rng.Intn(5); i++ {
 		switch rng.Intn(3) {
 		case 0:
